@@ -10,6 +10,8 @@ HERE = os.path.dirname(os.path.dirname(os.path.abspath(__file__)))
 BEGIN, END = '<!-- SEEDED-BEGIN -->', '<!-- SEEDED-END -->'
 
 OUT_OF_SCOPE = {
+    'H05-2': 'not a violation of the statement: it changes the outcome only where the harmonic mean has no textbook value (a zero AND a '
+             'negative item: 0 instead of #NUM!); the outcome stays the same in every order and grouping, which is all that is demanded there',
     'G01-1': 'not a violation of the statement (as C10-1, C19-8, F05-1): for a range whose corners share a row or a column the end '
              'cell inherits the $ marker of the start corner on the shared part; coordinates and labels of both cells stay right',
     'F05-1': 'not a violation of the statement (same situation as C10-1 and C19-8): for a range whose corners share a row or a '
